@@ -72,15 +72,25 @@ def program(draw, tier):
         if how != "active" and "is" not in tin:
             body.append({"id": "is", "op": "src", "schema": "TS[int]", "script": draw(gen.int_script(0, horizon, max_size=4, min_size=1)), "rel": True})
             tin.append("is")
+        # optionally a second argument that the inner timer reads actively while the nested NODE does not listen to it: its
+        # ticks reach the child out of band (push half of nested scheduling) while inner timers are pending
+        two = draw(st.integers(0, 2)) == 0
+        if two:
+            tin.append({"arg": 1})
         tnode = draw(timer("t", tin, horizon, start))
-        if how == "passive":
-            tnode["valid"] = []      # a passive, possibly still invalid outer input must not gate the timer
+        if how == "passive" or two:
+            tnode["valid"] = []      # a passive / out-of-band, possibly still invalid outer input must not gate the timer
         body.append(tnode)
-        subs["g0"] = {"params": ["TS[int]"], "out": "TS[int]", "stmts": body, "ret": "t"}
+        params = ["TS[int]"] * (2 if two else 1)
+        subs["g0"] = {"params": params, "out": "TS[int]", "stmts": body, "ret": "t"}
         for d in range(1, depth):
-            subs[f"g{d}"] = {"params": ["TS[int]"], "out": "TS[int]",
-                             "stmts": [{"id": "inner", "op": "nested", "sub": f"g{d - 1}", "ins": [{"arg": 0}]}], "ret": "inner"}
-        stmts.append({"id": "nest", "op": "nested", "sub": f"g{depth - 1}", "ins": [draw(st.sampled_from(ports))]})
+            subs[f"g{d}"] = {"params": params, "out": "TS[int]",
+                             "stmts": [{"id": "inner", "op": "nested", "sub": f"g{d - 1}", "ins": [{"arg": j} for j in range(len(params))],
+                                        **({"active": [0]} if two else {})}], "ret": "inner"}
+        nest = {"id": "nest", "op": "nested", "sub": f"g{depth - 1}", "ins": [draw(st.sampled_from(ports)) for _ in params]}
+        if two:
+            nest["active"] = [0]
+        stmts.append(nest)
         ports.append("nest")
     # optional feedback loop: acc = src + passive(fb)
     if draw(st.integers(0, 2)) == 0:
